@@ -56,7 +56,10 @@ Definition mon_c07 (c : smcase) (t : list action) : bool := match c with KSm _ _
 Definition run_c07 := run_sm proj_c07 mon_c07.
 Definition run_c08 := run_sm proj_c08 mon_true.
 Definition run_c09 := run_sm proj_c09 mon_true.
-Definition run_c10 := run_sm proj_c10 mon_true.
+Definition mon_c10 (c : smcase) (t : list action) : bool :=
+  match c with KSm _ _ _ cup apps _ _ _ =>
+    accepts step10 (init10 cup apps) t && accepts step6ids {| i_in := false; i_sess := None; i_reqs := [] |} t end.
+Definition run_c10 := run_sm proj_c10 mon_c10.
 Definition run_c12 := run_sm proj_c12 mon_true.
 Definition run_c14 := run_sm proj_all mon_true.
 Definition run_c18 := run_sm proj_c18 mon_true.
